@@ -13,7 +13,7 @@ EVIDENCE_DIR = pathlib.Path(os.environ.get("SPVERIF_EVIDENCE_DIR") or (VERIF / "
 KNOWN_FILE = VERIF / "known_findings.json"
 ASSUMED_FILE = VERIF / "assumed.json"
 
-PROVED, REFUTED, UNKNOWN = "PROVED", "REFUTED", "UNKNOWN"
+PROVED, REFUTED, UNKNOWN, ASSUMED = "PROVED", "REFUTED", "UNKNOWN", "ASSUMED"
 
 
 def norm_text(s: str) -> str:
@@ -52,6 +52,11 @@ class Checker:
 
     def unknown(self, rule, func, construct, detail=""):
         return self.ob(rule, func, construct, UNKNOWN, detail, True)
+
+    def assume(self, rule, func, construct, detail=""):
+        """an obligation the analysis deliberately does not decide (declared limitation, e.g. reads inside a
+        summarised loop); listed in the evidence under assumptions, never a violation, never silent"""
+        return self.ob(rule, func, construct, ASSUMED, detail, True)
 
     def verdict(self, rule, func, construct, problems, detail_ok="", nontrivial=True):
         """problems: list of strings (empty -> PROVED, else REFUTED with the first few)"""
@@ -96,6 +101,8 @@ class Checker:
             lines.append(f"ANALYSIS-INCOMPLETE property={self.pid} {o['rule']} at {o['func']}: {o['construct']} -- {o['detail']}")
         for (w, c, m) in floor_fail:
             lines.append(f"ANALYSIS-ERROR property={self.pid} instance floor: {w} = {c} < {m} (anchor vanished?)")
+        declared = [o for o in self.obs if o["status"] == ASSUMED]
+        self.obs = [o for o in self.obs if o["status"] != ASSUMED]
         n = len(self.obs)
         discharged = len([o for o in self.obs if o["status"] == PROVED])
         distinct = len({o["key"] for o in self.obs if o["nontrivial"]})
@@ -131,7 +138,9 @@ class Checker:
                 "notes": self.notes[:40],
                 "exhaustive": False,
             },
-            "assumptions": self.assumptions + [f"assumed (not discharged automatically): {o['key']}" for o in unk_assumed],
+            "assumptions": self.assumptions + [f"assumed (not discharged automatically): {o['key']}" for o in unk_assumed]
+                           + sorted({f"not decided (declared limitation): {o['rule']} {o['construct'][:120]}" for o in declared})[:60],
+            "undecided_declared": len(declared),
             "wall_s": round(time.time() - self.t0, 3),
             "violations": len(new_viol),
         }
@@ -139,13 +148,48 @@ class Checker:
         for l in lines:
             print(l)
         print(f"[{self.pid}/{self.tier}] obligations={n} proved={discharged} refuted={len(refuted)} "
-              f"(known {len(known_hit)}) unknown={len(unknown)} (assumed {len(unk_assumed)}) "
+              f"(known {len(known_hit)}) unknown={len(unknown)} (assumed {len(unk_assumed)}) undecided-declared={len(declared)} "
               f"wall={ev['wall_s']}s repo={self.repo}")
         if new_viol:
             return 1
         if unk_new or floor_fail:
             return 2
         return 0
+
+
+def _par_entry(args):
+    modname, fname, pid, tier, repo, seed, task = args
+    import importlib
+    import traceback
+    mod = importlib.import_module(modname)
+    sub = Checker(pid, tier, repo, seed)
+    try:
+        getattr(mod, fname)(sub, task)
+    except Exception as e:  # noqa: BLE001 - fail closed in the parent
+        sub.unknown("ENGINE", "spverif", f"worker task {str(task)[:80]}", f"{type(e).__name__}: {e} | {traceback.format_exc()[-600:]}")
+    for o in sub.obs:
+        if o.get("witness") is not None:
+            o["witness"] = str(o["witness"])
+    return sub.obs, sub.floors, sub.analysed
+
+
+def run_parallel(ck, modname, fname, tasks, jobs=None):
+    """run `modname.fname(sub_checker, task)` for every task in worker processes and merge the obligations
+    (order of tasks preserved).  Workers re-parse the repository themselves; nothing but plain data crosses."""
+    import concurrent.futures as cf
+    import os
+    jobs = jobs or min(16, os.cpu_count() or 4, max(1, len(tasks)))
+    args = [(modname, fname, ck.pid, ck.tier, ck.repo, ck.seed, t) for t in tasks]
+    if jobs <= 1 or len(tasks) <= 1 or os.environ.get("SPVERIF_SERIAL"):
+        results = [_par_entry(a) for a in args]
+    else:
+        with cf.ProcessPoolExecutor(max_workers=jobs) as ex:
+            results = list(ex.map(_par_entry, args, chunksize=1))
+    for obs, floors, analysed in results:
+        ck.obs.extend(obs)
+        ck.floors.extend(floors)
+        for k, v in analysed.items():
+            ck.analysed[k] = ck.analysed.get(k, 0) + v if isinstance(v, int) else v
 
 
 def load_known():
